@@ -78,7 +78,15 @@ def referent(interp, st, o):
     if p is None:
         return None
     if not p.get("p") and p["l"] in st.refs:
-        return st.refs[p["l"]]
+        r = st.refs[p["l"]]
+        # a reference to a local that itself holds a reference to a tracked buffer (`&mut &[u8]`)
+        for _ in range(3):
+            m = re.fullmatch(r"L(\d+)", r)
+            if m and int(m.group(1)) in st.refs and interp.lty(int(m.group(1))).startswith("&") and not st.refs[int(m.group(1))].startswith(("iter:", "chunks:")):
+                r = st.refs[int(m.group(1))]
+            else:
+                break
+        return r
     return interp.canon(st, p)
 
 
@@ -219,6 +227,10 @@ def apply_model(interp, st, t, b, record):
     if nm == "std::io::Cursor::<T>::set_position":
         r = referent(interp, st, args[0])
         v = interp.term_of_operand(st, args[1])
+        if r and v and record:
+            pt = "pos(%s)" % r
+            if (v[0] != "0" and st.z.implies(pt, v[0], -1)) or (v[0] == "0" and st.z.hi(pt) < v[1]):
+                interp.progress.add(b)
         if r:
             st.z.kill("pos(%s)" % r)
             if v:
@@ -240,11 +252,21 @@ def apply_model(interp, st, t, b, record):
         r = referent(interp, st, args[0])
         n = {"u8": 1, "i8": 1, "u16": 2, "i16": 2, "u24": 3, "u32": 4, "i32": 4, "u64": 8, "i64": 8, "u128": 16}.get(m.group(1)) if m else None
         is_cursor = "std::io::Cursor<" in ga.split(",")[0] if ga else False
+        if r and n and re.match(r"\[&'?\S* ?\[u8\](,|\])", ga):
+            # `&[u8]` as Read: succeeds iff at least n bytes are left in the slice
+            lt0 = _len_term(r)
+            fresh_dest()
+            if st.z.lo(lt0) >= n and dest and not dest.get("p"):
+                st.tags["L%d" % dest["l"]] = OKN
+            st.z.kill(lt0)
+            return
         havoc_buf = None
         if not m:
             # read_exact(&mut r, buf): buf contents change, not its length
             pass
         fresh_dest()
+        if record and (n or not m):
+            interp.progress.add(b)       # a successful read consumes >= 1 byte (read_exact: see buffer length rule)
         dl = dest["l"] if dest and not dest.get("p") else None
         if r and is_cursor:
             pos_t, len_t = "pos(%s)" % r, _len_term(r)
@@ -457,6 +479,22 @@ def apply_model(interp, st, t, b, record):
             st.z.set_range(_len_term(r), 0, 0)
         fresh_dest()
         return
+    if nm in ("bytes::BytesMut::split_to", "bytes::Bytes::split_to", "bytes::BytesMut::split_off", "bytes::Bytes::split_off", "bytes::Buf::advance", "bytes::BytesMut::advance"):
+        r = referent(interp, st, args[0])
+        n = interp.term_of_operand(st, args[1])
+        lt = _len_term(r) if r else None
+        ok = bool(n and lt and ((n[0] == "0" and st.z.lo(lt) >= n[1]) or (n[0] != "0" and st.z.implies(n[0], lt, 0))))
+        ob("split_to", (t.get("sn") or nm)[:90], ok, "n %s <= len %s" % (interp._show_term(st, n) if n else "?", _rng(interp, st, lt) if lt else "?"))
+        if record and n:
+            interp.consumed[b] = n[1] if n[0] == "0" else st.z.lo(n[0])
+        dt = fresh_dest()
+        if lt:
+            if n and n[0] != "0" and dt and nm.endswith("split_to"):
+                st.z.eq(_len_term(dt), n[0], 0)
+            lo_n = n[1] if n and n[0] == "0" else (st.z.lo(n[0]) if n else 0)
+            st.z.kill(lt)
+            st.z.set_range(lt, 0, LEN_MAX)
+        return
     if re.fullmatch(r"std::vec::Vec::<T(, A)?>::(extend_from_slice|append|extend|resize|reserve|retain|retain_mut|dedup\w*|truncate|pop|sort\w*)", nm) or re.fullmatch(r"bytes::(BytesMut|BufMut)::\w+", nm):
         r = referent(interp, st, args[0])
         if r:
@@ -498,20 +536,6 @@ def apply_model(interp, st, t, b, record):
         ok = bool(a and c and st.z.implies(_len_term(a), _len_term(c), 0) and st.z.implies(_len_term(c), _len_term(a), 0))
         ob("copy_from_slice", (t.get("sn") or nm)[:90], ok, "len %s == len %s" % (_rng(interp, st, _len_term(a)) if a else "?", _rng(interp, st, _len_term(c)) if c else "?"))
         fresh_dest()
-        return
-    if nm in ("bytes::BytesMut::split_to", "bytes::Bytes::split_to", "bytes::BytesMut::split_off", "bytes::Bytes::split_off", "bytes::Buf::advance", "bytes::BytesMut::advance"):
-        r = referent(interp, st, args[0])
-        n = interp.term_of_operand(st, args[1])
-        lt = _len_term(r) if r else None
-        ok = bool(n and lt and ((n[0] == "0" and st.z.lo(lt) >= n[1]) or (n[0] != "0" and st.z.implies(n[0], lt, 0))))
-        ob("split_to", (t.get("sn") or nm)[:90], ok, "n %s <= len %s" % (interp._show_term(st, n) if n else "?", _rng(interp, st, lt) if lt else "?"))
-        dt = fresh_dest()
-        if lt:
-            if n and n[0] != "0" and dt and nm.endswith("split_to"):
-                st.z.eq(_len_term(dt), n[0], 0)
-            lo_n = n[1] if n and n[0] == "0" else (st.z.lo(n[0]) if n else 0)
-            st.z.kill(lt)
-            st.z.set_range(lt, 0, LEN_MAX)
         return
     if re.fullmatch(r"bytes::Buf::get_\w+", nm):
         ob("buf-get", (t.get("sn") or nm)[:90], False, "bytes::Buf::get_* panics when fewer bytes remain")
@@ -699,6 +723,8 @@ def _local_call(interp, st, t, b, record, key):
     dest = t.get("dest")
     prog = interp.prog
     summ = getattr(prog, "_absint_summaries", {})
+    if record and (summ.get(key) or {}).get("consuming"):
+        interp.progress.add(b)
     pre = getattr(prog, "_absint_requires", {}).get(key)
     if pre:
         for (desc, cons) in pre:
